@@ -475,7 +475,8 @@ class Case:
     def __init__(self, spec):
         self.idn = IDENT[spec["identity"]]
         self.args = spec["args"]
-        self.sig = sig_of(spec["identity"], self.args, None)
+        self.twice = bool(spec.get("twice"))
+        self.sig = sig_of(spec["identity"], self.args, {"twice": True} if self.twice else None)
 
     def run(self, env):
         with EpsZero(self.idn.eps_zero):
@@ -526,6 +527,12 @@ class Case:
                 a.backward(Tn(g))
             if b.requires_grad:
                 b.backward(Tn(g))
+            if self.twice:      # both sides differentiated a second time: the accumulated gradients must still coincide
+                h = env.arr("h%d" % k, a.shape, np.float32, lo=-2, hi=2)
+                if a.requires_grad:
+                    a.backward(Tn(h))
+                if b.requires_grad:
+                    b.backward(Tn(h))
         for sp, x, y in zip(specs, tl, tr):
             if not sp.differentiable:
                 continue
@@ -540,8 +547,10 @@ class Case:
 def enumerate_specs(tier):
     specs = []
     for name, idn in IDENT.items():
-        for args in idn.configs(tier):
+        for ci, args in enumerate(idn.configs(tier)):
             specs.append({"identity": name, "args": args})
+            if tier != "quick" or ci % 2 == 0:
+                specs.append({"identity": name, "args": args, "twice": True})
     return specs
 
 
